@@ -360,3 +360,16 @@ Proof.
   - field.
   - symmetry. apply sqrt_lem_1; lra.
 Qed.
+
+(* two tetrahedra sharing a face: the model's cell_to_cell is symmetric and closed, as C08_sym_rowsum_tetra asks *)
+Definition exC : list cell := [(0, 1, 2, 3); (1, 2, 3, 4)]%Z.
+Example ex_tets : nb_symmetric (cell_nbrs exC) 2 /\ nb_closed (cell_nbrs exC) 2.
+Proof.
+  assert (N0 : cell_nbrs exC 0 = [1%Z]) by reflexivity.
+  assert (N1 : cell_nbrs exC 1 = [0%Z]) by reflexivity.
+  split.
+  - intros a b Ha Hb. assert (a = 0 \/ a = 1)%Z as [-> | ->] by lia; assert (b = 0 \/ b = 1)%Z as [-> | ->] by lia;
+      rewrite ?N0, ?N1; reflexivity.
+  - intros a b Ha Hin. assert (a = 0 \/ a = 1)%Z as [-> | ->] by lia; rewrite ?N0, ?N1 in Hin;
+      destruct Hin as [<- | []]; lia.
+Qed.
